@@ -327,6 +327,9 @@ const REAL_TEXT: &[&str] = &[
 ];
 const TRICKY_TEXT: &[&str] = &[
     "", "", " ", "a b", "a,b", "a;b=c", "'q'", "\"", "a\"b", "\"x\"", "\"\"", "#", "#c", "a#b", " lead", "trail ", "\u{e9}", "\u{4e2d}\u{6587}", "0x10", "-1", "1e5", "NaN", "\\", "\\t", "%09", "a=b", "k v;", "x,y,z",
+    // words that tabular-format tools treat specially (header / directive / placeholder keywords): a reader
+    // must treat them as ordinary column text
+    "track", "track_07", "tracker1", "browser", "browserScaffold12", "track name=x", "chrom", "chr", "##gff-version", "##FASTA", "gff-version", ">", ">seq", "@", "NA", "N/A", "null", "None", "nan", "inf", "-inf", "true", "FALSE", "0", "00", "+1", "1.0", "1e3", ".", "..", "*", "?",
 ];
 
 /// free text of a column; `clean` = no '"' (files handed to the strict oracle)
